@@ -134,7 +134,9 @@ NearDocs == <<
 >>
 NMutable == IF Mode = "c08" THEN Len(CoreDocs) + Len(ExtraDocs) ELSE Len(CoreDocs)
 BaseDocs == (IF Mode = "c08" THEN CoreDocs \o ExtraDocs \o BigDocs ELSE CoreDocs) \o DeepDocs \o NearDocs
-Repl == <<Null, True, Num(1), Str("Nope"), Arr(<<>>), Obj(<<>>), Arr(<<Num(1)>>), Arr(<<Num(1), Num(2), Num(3), Num(4), Num(5)>>), P2(6,6)>>
+\* (the last one: a JSON string whose CONTENT is a GeoJSON text - a string is not an object)
+Repl == <<Null, True, Num(1), Str("Nope"), Arr(<<>>), Obj(<<>>), Arr(<<Num(1)>>), Arr(<<Num(1), Num(2), Num(3), Num(4), Num(5)>>), P2(6,6),
+          Str("{\"type\":\"Point\",\"coordinates\":[1,2]}")>>
 NOps == Len(Repl) + 6
 \* mutation m = <<path, op>>
 Apply(d, p, op) ==
